@@ -248,7 +248,9 @@ class Sess(ftpsim.Session):
             res["ended"] = True
             return res
         if verb == DC:
-            if self.pasv_port is not None:
+            # "make sure a data connection to the CURRENT passive listener is there": one we made and the server has
+            # not consumed is still the session's (a second one would be closed by the passive handler)
+            if self.pasv_port is not None and self.dc is None:
                 try:
                     self.dc = await self.net.open_connection("127.0.0.1", self.pasv_port)
                 except ConnectionRefusedError:
@@ -601,7 +603,11 @@ MEMORY_SCRIPTS = list(SCRIPTS)
 DISK_SCRIPTS = ["mkd", "rmd-nonempty", "dele", "rename", "cwd", "mlst-file", "list-homog", "mlsd-homog", "retr", "stor", "appe",
                 "rest-stor", "rest-stor-missing"]
 ASYNC_SCRIPTS = ["retr", "rest-stor", "mlsd-homog"]
-FOLLOW = [(A, "PWD", "", None)] + data(A) + [(A, "LIST", "/m", None), (B, "PWD", "", None)] + data(B) + [(B, "RETR", "/d/f", None)]
+# follow-ups: PWD; a transfer on the SAME passive listener (a new connection to it, no new PASV - standard clients may
+# reuse the listener; aioftp's own client never does); a fresh PASV + transfer; the second session
+SAME_LISTENER = 2  # index in FOLLOW of the transfer that reuses the listener
+FOLLOW = ([(A, "PWD", "", None), (A, DC, "", None), (A, "LIST", "/m", None)] + data(A) + [(A, "LIST", "/m", None), (B, "PWD", "", None)]
+          + data(B) + [(B, "RETR", "/d/f", None)])
 
 
 def script_events(name):
@@ -703,6 +709,7 @@ def oracle(ctx, name, events, plan, obs, backend, kind="os"):
     rep = {"script": name, "plan": sorted(plan), "backend": backend, "raises": kind}
     first_follow = n_main(name)
     prev = {}
+    last_fault = "nofault"
     for i, ((who, verb, arg, payload), o) in enumerate(zip(events, obs)):
         v = verb.lower()
         if verb == DC:
@@ -710,6 +717,8 @@ def oracle(ctx, name, events, plan, obs, backend, kind="os"):
         raised = [m for m, h in o["calls"] if h]
         codes = o["codes"]
         why = None
+        if raised:
+            last_fault = f"{v}-{raised[0]}"
         if raised:
             if o["ended"]:
                 why = "session-ended"
@@ -738,8 +747,10 @@ def oracle(ctx, name, events, plan, obs, backend, kind="os"):
                 why = "follow-up-download-wrong"
             if why and who == B:
                 why = "second-session-" + why
+            elif why and i == first_follow + SAME_LISTENER:
+                why = "next-transfer-on-same-listener-" + why
         if why:
-            key = f"c13-{why}-{v}-{raised[0] if raised else 'nofault'}"
+            key = f"c13-{why}-{v}-{raised[0]}" if raised else f"c13-{why}-{v}-after-{last_fault}"
             ctx.violation(
                 f"property oracle: {why} ({verb} {arg}; raising backend calls {raised})",
                 dict(rep, key=key, at=i, event=[who, verb, arg], codes=codes, calls=[list(c) for c in o["calls"]]),
@@ -769,6 +780,16 @@ def plans_for(rng, n, thorough):
     return out
 
 
+def set_model_switch(ctx):
+    """when the regenerated facts say that the hand-written bodies no longer stand for the source (a translator failed
+    closed, an unknown async-with item, a new call site ...) the model's predictions mean nothing: the comparison is
+    switched off and the implementation is judged by the property oracle alone"""
+    names = ("translator_ok", "faultsites_ok", "sites_ok", "workers_ok", "conds_ok", "params_ok")
+    usable = dict(zip(names, (bool(x) for x in ctx.model([(3, [])])[0])))
+    ctx.extra["model_is_a_model_of_this_source"] = usable
+    ctx.model_off = [k for k, v in usable.items() if not v]
+
+
 def check_case(ctx, name, events, plan, mo, backend, kind="os"):
     try:
         obs, tree, log = run_impl(events, plan, backend, kind)
@@ -777,6 +798,10 @@ def check_case(ctx, name, events, plan, mo, backend, kind="os"):
                      "a run", repr(e)[:300])
         return False, []
     ctx.traces_impl += 1
+    if getattr(ctx, "model_off", None):
+        ctx.count("runs_judged_by_the_oracle_alone")
+        oracle(ctx, name, events, plan, obs, backend, kind)
+        return False, obs
     ok = compare(ctx, name, events, plan, mo, obs, tree, backend, kind)
     oracle(ctx, name, events, plan, obs, backend, kind)
     return ok, obs
@@ -788,7 +813,8 @@ def correspondence(ctx, budget=None):
     ctx.extra["rule"] = (
         "scripts {MKD, RMD (empty / non-empty = genuine error), DELE, RNFR+RNTO, CWD, MLST dir/file, LIST, MLSD, RETR, STOR, APPE, "
         "REST+STOR, REST+RETR, RETR then STOR, REST+STOR on a missing file (genuine open failure)} after login of two sessions "
-        "and with the data connection made, followed by probes on the same session (PWD, fresh PASV + LIST) and on the second one "
+        "and with the data connection made, followed by probes on the same session (PWD; a LIST over a NEW connection to the SAME passive "
+        "listener, no new PASV; fresh PASV + LIST) and on the second one "
         "(PWD, PASV + RETR); block size 4 so that transfers make several read/write calls. For each script the fault-free run counts "
         "the N backend calls of the whole run; then every single fault k < N and double faults (quick: (k,k+1) and (k,random); thorough: "
         "all pairs) are run on the real server with the fault-injecting backend (the injected exception rotates over 27 classes: the OSError family as the "
@@ -807,6 +833,7 @@ def correspondence(ctx, budget=None):
         "data EOF, the session and the other session answer PWD afterwards; compared with Model/FaultsRound.v (fn 2)."
     )
     params = ctx.model([(1, [])])[0]
+    set_model_switch(ctx)
     ctx.extra["model_parameters_from_source"] = {
         "ctx_stor": sx.txts(params[0]), "ctx_retr": sx.txts(params[1]), "ctx_list": sx.txts(params[2]), "ctx_mlsd": sx.txts(params[3]),
         "dispatcher_pathioerror": sx.txts(params[4][0]) if params[4] else None,
@@ -863,6 +890,10 @@ def correspondence(ctx, budget=None):
 def search(ctx):
     if ctx.violations or ctx.exe is None:
         return
+    if getattr(ctx, "model_off", None):
+        # nothing to learn from model disagreements; the oracle-only pass over the quick streams has been made
+        ctx.notes.append(f"model switched off ({ctx.model_off}); no escalation of the search")
+        return
     try:
         ctx.tier = "thorough"
         correspondence(ctx)
@@ -884,6 +915,7 @@ def replay(ctx, data):
         print(data)
         return False
     name, plan, backend, kind = r["script"], set(r["plan"]), r.get("backend", "memory"), r.get("raises", "os")
+    set_model_switch(ctx)
     events = script_events(name)
     mo = ctx.model([model_case(events, plan)])[0]
     before = len(ctx.violations) + len(ctx.disagreements) + len(ctx.known_hits)
